@@ -932,7 +932,10 @@ impl<'cmd> Parser<'cmd> {
             Ok(()),
             "tracking of `flag_subcmd_skip` is off for `{short_arg:?}`"
         );
+        // Number of flags of this group read so far, by this parser or its parents
+        let mut consumed = skip;
         while let Some(c) = short_arg.next_flag() {
+            consumed += 1;
             let c = match c {
                 Ok(c) => c,
                 Err(rest) => {
@@ -998,11 +1001,11 @@ impl<'cmd> Parser<'cmd> {
                 debug!("Parser::parse_short_arg: cur_idx:={}", self.cur_idx.get());
 
                 let name = sc_name.to_string();
-                // Get the index of the previously saved flag subcommand in the group of flags (if exists).
-                // If it is a new flag subcommand, then the formentioned index should be the current one
-                // (ie. `cur_idx`), and should be registered.
+                // Register where this group of flags started, in terms of `cur_idx`: the subcommand's
+                // parser resumes in this group after `cur_idx - flag_subcmd_at + 1` flags, which has to
+                // be every flag read so far wherever in the group the flag subcommand is.
                 let cur_idx = self.cur_idx.get();
-                self.flag_subcmd_at.get_or_insert(cur_idx);
+                self.flag_subcmd_at = Some(cur_idx + 1 - consumed);
                 let done_short_args = short_arg.is_empty();
                 if done_short_args {
                     self.flag_subcmd_at = None;
